@@ -8,7 +8,7 @@ Conservative by construction:
     (or `pure`); with one inside it is only understood when it is `if self.<transport> is [not] None` (resolved per
     constructor variant) or a `try … except …` with a single handler;
   * a call of a helper method that (transitively) opens/closes something is inlined when its body is itself
-    translatable, recognised when it is the "retry link-open" idiom, and refused otherwise;
+    translatable, unrolled by concrete evaluation when it is a retry loop around the link opening, and refused otherwise;
   * source it does not understand raises `Untranslatable` for that class — it never guesses.
 
 The Python mirror of the Lean semantics (`exec_prog`) is only used to *predict* which theorem to state for a
@@ -432,11 +432,9 @@ class ClassTranslator:
                     if fn is None:
                         raise Untranslatable(f"helper with a state change cannot be resolved: {self._where(owner, s)}")
                     fd = self._fdef_of(fn)
-                    t_attr = self._retry_open_idiom(fd)
-                    if t_attr is not None:
-                        if t_attr not in self.present:
-                            raise Untranslatable(f"retry-open of an absent transport: {self._where(owner, s)}")
-                        return [mk("tOpen", self.links.index(t_attr))]
+                    if any(isinstance(x, (ast.While, ast.For)) for x in ast.walk(fd)) and not call.args and not call.keywords:
+                        # a helper that loops around the link opening (retries): unrolled by concrete evaluation
+                        return self._unroll_retry_helper(k, f.attr, fn)
                     if not all(pure_expr(a) for a in call.args) or not all(pure_expr(kw.value) for kw in call.keywords):
                         raise Untranslatable(f"state-changing helper called with computed arguments: {self._where(owner, s)}")
                     return self.translate_function(k, f.attr, fn)        # inline a straight-line helper
@@ -466,39 +464,257 @@ class ClassTranslator:
             if not good:
                 raise Untranslatable(f"QMI_Instrument.{chk} is no longer `if [not] self._is_open: raise …`")
 
-    def _retry_open_idiom(self, fd) -> Optional[str]:
-        """`while True: try: self.T.open(); return  except …: <no state change, no break/return>` → T."""
-        body = D.body_without_docstring(fd)
-        if not body or not isinstance(body[-1], ast.While):
-            return None
-        pre, loop = body[:-1], body[-1]
-        if not (isinstance(loop.test, ast.Constant) and loop.test.value is True) or loop.orelse:
-            return None
-        if any(self.has_state_ops(p) or self.has_escape(p) for p in pre):
-            return None
-        if not loop.body or not isinstance(loop.body[0], ast.Try):
-            return None
-        tr, rest = loop.body[0], loop.body[1:]
-        if tr.finalbody or tr.orelse or not tr.handlers:
-            return None
-        if len(tr.body) < 2 or not isinstance(tr.body[-1], ast.Return) or tr.body[-1].value is not None:
-            return None
-        op = tr.body[-2]
-        if not (isinstance(op, ast.Expr) and isinstance(op.value, ast.Call) and isinstance(op.value.func, ast.Attribute)
-                and op.value.func.attr == "open" and _is_self_attr(op.value.func.value)
-                and op.value.func.value.attr in self.all_tattrs and not op.value.args):
-            return None
-        if any(self.has_state_ops(p) or self.has_escape(p) for p in tr.body[:-2]):
-            return None
+    # -- retry loops around the link opening: unrolled by concrete evaluation --------------------------------------
+    def _unroll_retry_helper(self, owner, name: str, fn) -> list:
+        """A helper whose only state-changing operation is `self.<T>.open()` inside loops with concrete counters
+        (`while True … return`, `while retry <= MAX`, `for _ in range(MAX)` …).  Every control path is enumerated by running
+        the body on concrete values, the outcome of each open attempt being the only unknown.  Accepted when the paths
+        are exactly  F^i S → normal return (i < n)  and  F^n → raise;  the result is n nested attempts
 
-        def no_break(nodes):
-            return not any(isinstance(x, (ast.Break, ast.Return)) for n in nodes for x in ast.walk(n))
-        for h in tr.handlers:
-            if self.has_state_ops(h.body) or not no_break(h.body):
-                return None
-        if any(self.has_state_ops(p) for p in rest) or not no_break(rest):
-            return None
-        return op.value.func.value.attr
+            try: tOpen  except <all>: <statements run after the failure>; <next attempt>      (last attempt: re-raise)
+
+        so that every attempt is a fault point of its own (a plan "fails k times, then succeeds" is a multi-fault plan).
+        Anything else — a path that raises after the link was opened, returns without opening, kind-specific handlers,
+        unbounded retries, values the evaluator cannot compute — is refused with the offending path."""
+        base = 1000 * len(self.maps)
+        fm = _func_map_of(fn, owner, name, base)
+        self.maps.append(fm)
+        ids = {id(n): i for i, n, _ in fm.stmts}
+        top = [n for i, n, p in fm.stmts if p == 0]
+        where = f"{owner.__name__}.{name}"
+        cls = self.cls
+        tattrs = self.all_tattrs
+        reps = self._reps()
+        tr = self
+
+        class _Raise(Exception):
+            def __init__(self, kind=None):
+                self.kind = kind            # None = the injected fault itself
+
+        class _Return(Exception):
+            pass
+
+        class _Break(Exception):
+            pass
+
+        class _Continue(Exception):
+            pass
+
+        class _Fork(Exception):
+            pass
+
+        class _SelfProxy:
+            def __getattr__(self, a):
+                v = getattr(cls, a)
+                if isinstance(v, (int, float, str, bool, type(None))):
+                    return v
+                raise Untranslatable(f"{where}: the evaluator cannot use self.{a}")
+
+        MARK = object()
+
+        def run(oracle):
+            env = {"self": _SelfProxy()}
+            events = []            # ("stmt", node) | ("open", node, ok)
+            state = {"n": 0, "attr": None}
+
+            def ev(e):
+                try:
+                    return eval(compile(ast.fix_missing_locations(ast.Expression(e)), "<c19>", "eval"),
+                                {"__builtins__": {"range": range, "len": len, "min": min, "max": max, "int": int}}, env)
+                except Untranslatable:
+                    raise
+                except Exception as ex:
+                    raise Untranslatable(f"{where}: cannot evaluate `{ast.unparse(e)}` ({type(ex).__name__})")
+
+            def block(stmts, cur=None):
+                for st in stmts:
+                    if isinstance(st, ast.Pass):
+                        continue
+                    if isinstance(st, ast.Expr) and isinstance(st.value, ast.Constant):
+                        continue
+                    if isinstance(st, ast.Expr) and isinstance(st.value, ast.Call):
+                        c = st.value
+                        f = c.func
+                        if isinstance(f, ast.Attribute) and f.attr == "open" and _is_self_attr(f.value) and f.value.attr in tattrs \
+                                and not c.args:
+                            if state["attr"] not in (None, f.value.attr):
+                                raise Untranslatable(f"{where}: opens more than one transport")
+                            state["attr"] = f.value.attr
+                            i = state["n"]
+                            if i >= len(oracle):
+                                raise _Fork()
+                            state["n"] += 1
+                            events.append(("open", st, oracle[i]))
+                            if not oracle[i]:
+                                raise _Raise(None)
+                            continue
+                        if pure_call(c):
+                            events.append(("stmt", st))
+                            continue
+                        raise Untranslatable(f"{where}: statement the evaluator does not run: `{ast.unparse(st)[:70]}`")
+                    if isinstance(st, ast.Assign) and len(st.targets) == 1 and isinstance(st.targets[0], ast.Name):
+                        env[st.targets[0].id] = ev(st.value)
+                        events.append(("stmt", st))
+                        continue
+                    if isinstance(st, ast.AugAssign) and isinstance(st.target, ast.Name):
+                        cur_v = env[st.target.id]
+                        env[st.target.id] = ev(ast.BinOp(left=ast.Constant(cur_v), op=st.op, right=st.value))
+                        events.append(("stmt", st))
+                        continue
+                    if isinstance(st, ast.If):
+                        block(st.body if ev(st.test) else st.orelse, cur)
+                        continue
+                    if isinstance(st, ast.While):
+                        it = 0
+                        while ev(st.test):
+                            it += 1
+                            if it > 64:
+                                raise Untranslatable(f"{where}: unbounded retry loop")
+                            try:
+                                block(st.body, cur)
+                            except _Break:
+                                break
+                            except _Continue:
+                                continue
+                        else:
+                            block(st.orelse, cur)
+                        continue
+                    if isinstance(st, ast.For) and isinstance(st.target, ast.Name):
+                        seq = list(ev(st.iter))
+                        if len(seq) > 64:
+                            raise Untranslatable(f"{where}: unbounded retry loop")
+                        for v in seq:
+                            env[st.target.id] = v
+                            try:
+                                block(st.body, cur)
+                            except _Break:
+                                break
+                            except _Continue:
+                                continue
+                        else:
+                            block(st.orelse, cur)
+                        continue
+                    if isinstance(st, ast.Try) and not st.finalbody and not st.orelse:
+                        try:
+                            block(st.body, cur)
+                        except _Raise as r:
+                            h = st.handlers[0] if st.handlers else None
+                            if h is None:
+                                raise
+                            if h.type is not None:
+                                caught = tr._eval_in_module(owner, h.type)
+                                if not all(issubclass(reps[k], caught) for k in KINDS):
+                                    raise Untranslatable(f"{where}: the retry handler `except {ast.unparse(h.type)}` is kind-specific")
+                            if len(st.handlers) > 1:
+                                raise Untranslatable(f"{where}: several handlers in a retry loop")
+                            if h.name:
+                                env[h.name] = MARK
+                            block(h.body, r)
+                        continue
+                    if isinstance(st, ast.Raise):
+                        if st.exc is None:
+                            if cur is None:
+                                raise Untranslatable(f"{where}: bare raise outside a handler")
+                            raise _Raise(cur.kind)
+                        if isinstance(st.exc, ast.Name) and env.get(st.exc.id) is MARK:
+                            raise _Raise(None)
+                        target = st.exc.func if isinstance(st.exc, ast.Call) else st.exc
+                        try:
+                            c = tr._eval_in_module(owner, target)
+                        except Exception:
+                            raise Untranslatable(f"{where}: cannot evaluate the raised class `{ast.unparse(target)}`")
+                        raise _Raise(tr._kind_of_class(c))
+                    if isinstance(st, ast.Return) and st.value is None:
+                        raise _Return()
+                    if isinstance(st, ast.Break):
+                        raise _Break()
+                    if isinstance(st, ast.Continue):
+                        raise _Continue()
+                    raise Untranslatable(f"{where}: statement the evaluator does not run: `{ast.unparse(st)[:70]}`")
+
+            try:
+                block(top)
+                out = ("end", None)
+            except _Return:
+                out = ("end", None)
+            except _Raise as r:
+                out = ("raise", r.kind)
+            except (_Break, _Continue):
+                raise Untranslatable(f"{where}: break/continue outside a loop")
+            return events, out, state["attr"]
+
+        paths = []
+        todo = [[]]
+        while todo:
+            orc = todo.pop()
+            if len(orc) > 40:
+                raise Untranslatable(f"{where}: unbounded retry loop")
+            try:
+                events, out, attr = run(orc)
+            except _Fork:
+                todo.append(orc + [True])
+                todo.append(orc + [False])
+                continue
+            used = [e[2] for e in events if e[0] == "open"]
+            paths.append((used, events, out, attr))
+
+        def show(used):
+            return "".join("S" if u else "F" for u in used) or "(no attempt)"
+        allfail = [p for p in paths if p[0] and not any(p[0])]
+        if len(allfail) != 1:
+            raise Untranslatable(f"{where}: no unique all-attempts-fail path")
+        n = len(allfail[0][0])
+        for used, events, out, attr in paths:
+            if any(used):
+                if used.count(True) > 1 or not used[-1] and True in used:
+                    raise Untranslatable(f"{where}: path {show(used)}: the link is opened again after it was opened")
+                if out[0] == "raise":
+                    raise Untranslatable(f"{where}: path {show(used)}: raises although the link has just been opened "
+                                         f"(the link stays open behind a failed open())")
+            elif out[0] != "raise":
+                raise Untranslatable(f"{where}: path {show(used)}: returns normally without having opened the link")
+        succ = {len(p[0]) - 1: p for p in paths if any(p[0])}
+        if sorted(succ) != list(range(n)):
+            raise Untranslatable(f"{where}: success paths {sorted(show(p[0]) for p in succ.values())} do not cover every attempt 1…{n}")
+        attr = allfail[0][3]
+        if attr not in self.present:
+            raise Untranslatable(f"{where}: retry-open of an absent transport")
+        t = self.links.index(attr)
+
+        def atom_of(node, kind, tt=None):
+            return Atom(ids[id(node)], kind, tt, ast.unparse(node).splitlines()[0][:100], owner.__name__, node.lineno)
+
+        # segments of the all-fail path: P0, open#1, H1, open#2, …, open#n, Hn
+        segs, cur, opens = [], [], []
+        for e in allfail[0][1]:
+            if e[0] == "open":
+                segs.append(cur)
+                cur = []
+                opens.append(e[1])
+            else:
+                cur.append(e[1])
+        segs.append(cur)
+        # statements after the successful attempt must not depend on which attempt succeeded
+        def post(p):
+            evs = p[1]
+            k = max(i for i, e in enumerate(evs) if e[0] == "open")
+            return [ids[id(e[1])] for e in evs[k + 1:]]
+        posts = {tuple(post(p)) for p in succ.values()}
+        if len(posts) != 1:
+            raise Untranslatable(f"{where}: the statements after a successful attempt depend on the attempt number")
+        post_nodes = [e[1] for e in succ[0][1][max(i for i, e in enumerate(succ[0][1]) if e[0] == "open") + 1:]]
+        kind = allfail[0][2][1]
+        exit_ = ("reraise",) if kind is None else ("raiseK", kind)
+
+        def attempt(j):         # j = 1 … n
+            body = [atom_of(opens[j - 1], "tOpen", t)]
+            handler = [atom_of(x, "pure") for x in segs[j]]
+            if j == n:
+                if not handler and exit_ == ("reraise",):
+                    return body[0]
+                return Try(ids[id(opens[j - 1])], body, list(KINDS), handler, exit_)
+            return Try(ids[id(opens[j - 1])], body, list(KINDS), handler + [attempt(j + 1)], ("swallow",))
+        return [atom_of(x, "pure") for x in segs[0]] + [attempt(1)] + [atom_of(x, "pure") for x in post_nodes]
 
     def _try(self, s: ast.Try, owner, fname, ids, fm, sid) -> Try:
         if s.finalbody or s.orelse:
@@ -873,11 +1089,17 @@ def m_chk(K, sig, prog):
         else:
             all_caught = set(st.catches) >= set(KINDS)
 
-            def Kb(tau, st=st, all_caught=all_caught):
+            sig_b = m_chk(lambda _x: True, sig, st.body)
+            if sig_b is None:
+                return None
+
+            def Kb(tau, st=st, all_caught=all_caught, sig_b=sig_b):
                 if not (all_caught or K(tau)):
                     return False
                 t2 = m_chk(K, tau, st.handler)
-                return t2 is not None and st.exit[0] != "swallow" and K(t2)
+                if t2 is None:
+                    return False
+                return (t2 == sig_b) if st.exit[0] == "swallow" else K(t2)
             sig = m_chk(Kb, sig, st.body)
             if sig is None:
                 return None
